@@ -5,6 +5,7 @@
 //     RegionSyncer.Sync served by a stub pdpb.PDServer on a localhost gRPC server, the follower's
 //     StartSyncWithLeader connecting to it; every message the leader sends is recorded at Send time;
 //   - the broadcast path: RunServer on a pre-filled notifier channel with the follower bound.
+//
 // Prints cases as Coq terms for model/C16_Syncer.v.
 package main
 
@@ -14,6 +15,7 @@ import (
 	"encoding/json"
 	"flag"
 	"fmt"
+	"io"
 	"net"
 	"os"
 	"path"
@@ -74,27 +76,27 @@ type BufOp struct {
 type Case struct {
 	Kind string // buf | sync | bcast
 	// buf
-	Cap int64   `json:",omitempty"`
-	Ops []BufOp `json:",omitempty"`
+	Cap int64    `json:",omitempty"`
+	Ops []BufOp  `json:",omitempty"`
 	Obs []string `json:",omitempty"`
 	// sync / bcast
-	LP, FP     *uint64  `json:",omitempty"`
-	LRecs      []Region `json:",omitempty"`
-	Regions    []Region `json:",omitempty"` // leader region set in the order GetRegions() returned it
-	Pending    []Region `json:",omitempty"`
-	Cut        int      `json:",omitempty"` // cut: number of full-sync batches delivered before the connection drops
-	FailIDs    []uint64 `json:",omitempty"` // cut: regions whose SaveRegion fails on the follower
-	FCached    []Region `json:",omitempty"` // chain: regions the follower cached while it was the leader itself (heartbeats, term FTerm)
-	FTerm      uint64   `json:",omitempty"`
-	Enc        bool     `json:",omitempty"` // the follower encrypts region keys at rest (security.encryption)
-	SlowLoad   bool     `json:",omitempty"` // chain: the follower's local store answers range reads slowly (it is still loading when the leader is reachable)
-	FStored    []Region `json:",omitempty"` // chain: metas in the follower's own region storage before it starts
-	Msgs       []Msg    `json:",omitempty"`
-	FCache     []Region `json:",omitempty"`
-	FNext      uint64   `json:",omitempty"`
-	FSaved     []uint64 `json:",omitempty"`
-	UseRS      bool     `json:",omitempty"`
-	Note       string   `json:",omitempty"`
+	LP, FP   *uint64  `json:",omitempty"`
+	LRecs    []Region `json:",omitempty"`
+	Regions  []Region `json:",omitempty"` // leader region set in the order GetRegions() returned it
+	Pending  []Region `json:",omitempty"`
+	Cut      int      `json:",omitempty"` // cut: number of full-sync batches delivered before the connection drops
+	FailIDs  []uint64 `json:",omitempty"` // cut: regions whose SaveRegion fails on the follower
+	FCached  []Region `json:",omitempty"` // chain: regions the follower cached while it was the leader itself (heartbeats, term FTerm)
+	FTerm    uint64   `json:",omitempty"`
+	Enc      bool     `json:",omitempty"` // the follower encrypts region keys at rest (security.encryption)
+	SlowLoad bool     `json:",omitempty"` // chain: the follower's local store answers range reads slowly (it is still loading when the leader is reachable)
+	FStored  []Region `json:",omitempty"` // chain: metas in the follower's own region storage before it starts
+	Msgs     []Msg    `json:",omitempty"`
+	FCache   []Region `json:",omitempty"`
+	FNext    uint64   `json:",omitempty"`
+	FSaved   []uint64 `json:",omitempty"`
+	UseRS    bool     `json:",omitempty"`
+	Note     string   `json:",omitempty"`
 }
 
 func keyOf(k uint64) []byte {
@@ -494,10 +496,10 @@ func (s *fakeServer) ClusterID() uint64            { return 4242 }
 func (s *fakeServer) GetMemberInfo() *pdpb.Member {
 	return &pdpb.Member{Name: s.name, MemberId: 1, ClientUrls: []string{"http://127.0.0.1:1"}}
 }
-func (s *fakeServer) GetLeader() *pdpb.Member          { return &pdpb.Member{Name: "leader"} }
-func (s *fakeServer) GetStorage() *core.Storage        { return s.storage }
-func (s *fakeServer) Name() string                     { return s.name }
-func (s *fakeServer) GetTLSConfig() *grpcutil.TLSConfig { return &grpcutil.TLSConfig{} }
+func (s *fakeServer) GetLeader() *pdpb.Member             { return &pdpb.Member{Name: "leader"} }
+func (s *fakeServer) GetStorage() *core.Storage           { return s.storage }
+func (s *fakeServer) Name() string                        { return s.name }
+func (s *fakeServer) GetTLSConfig() *grpcutil.TLSConfig   { return &grpcutil.TLSConfig{} }
 func (s *fakeServer) GetBasicCluster() *core.BasicCluster { return s.bc }
 func (s *fakeServer) GetRegions() []*core.RegionInfo {
 	s.lastGet = s.bc.GetRegions()
@@ -560,7 +562,9 @@ func keyManager() *encryptionkm.KeyManager {
 	return kmInst
 }
 
-func newNode(name string, persisted *uint64, useRS bool) *node { return newNodeEnc(name, persisted, useRS, false) }
+func newNode(name string, persisted *uint64, useRS bool) *node {
+	return newNodeEnc(name, persisted, useRS, false)
+}
 
 // newNodeEnc: with enc the node's storage encrypts the region keys at rest (a non-default configuration of PD)
 func newNodeEnc(name string, persisted *uint64, useRS, enc bool) *node {
@@ -624,6 +628,14 @@ type pdStub struct {
 	mu       sync.Mutex
 	msgs     []Msg
 	panicked string // the leader's handler panicked while serving a request (it would have killed the PD server)
+	entered  int    // SyncRegions handlers started
+	returned int    // SyncRegions handlers that have returned
+}
+
+func (p *pdStub) handlers() (entered, returned int) {
+	p.mu.Lock()
+	defer p.mu.Unlock()
+	return p.entered, p.returned
 }
 
 func (p *pdStub) guard() {
@@ -644,6 +656,14 @@ func (p *pdStub) didPanic() string {
 
 func (p *pdStub) SyncRegions(stream pdpb.PD_SyncRegionsServer) (err error) {
 	defer p.guard()
+	p.mu.Lock()
+	p.entered++
+	p.mu.Unlock()
+	defer func() {
+		p.mu.Lock()
+		p.returned++
+		p.mu.Unlock()
+	}()
 	return p.leader.Sync(&recStream{PD_SyncRegionsServer: stream, mu: &p.mu, msgs: &p.msgs})
 }
 
@@ -1030,6 +1050,184 @@ func reconnectProbe(R *res.Result, seed uint64) {
 		follower.syncer.StopSyncWithLeader()
 		gs.Stop()
 		gs2.Stop()
+		for _, nd := range []*node{leader, follower} {
+			nd.cancel()
+			nd.rs.Close()
+			os.RemoveAll(nd.dir)
+		}
+	}()
+}
+
+// halfOpenProxy forwards TCP connections to a backend and lets the two halves of a connection die at different times,
+// as they do when a machine or a network path goes away: the client notices at once, the server only when it next
+// writes (or when its keep-alive fires).
+type halfOpenProxy struct {
+	lis     net.Listener
+	backend string
+	mu      sync.Mutex
+	cli     []net.Conn // client-facing sockets, in accept order
+	srv     []net.Conn // server-facing sockets, in accept order
+}
+
+func newHalfOpenProxy(backend string) *halfOpenProxy {
+	lis, err := net.Listen("tcp", "127.0.0.1:0")
+	if err != nil {
+		panic(err)
+	}
+	p := &halfOpenProxy{lis: lis, backend: backend}
+	go func() {
+		for {
+			c, err := lis.Accept()
+			if err != nil {
+				return
+			}
+			b, err := net.Dial("tcp", backend)
+			if err != nil {
+				c.Close()
+				continue
+			}
+			p.mu.Lock()
+			p.cli = append(p.cli, c)
+			p.srv = append(p.srv, b)
+			p.mu.Unlock()
+			go io.Copy(b, c) // neither direction closes the other side: the probe decides when each half dies
+			go io.Copy(c, b)
+		}
+	}()
+	return p
+}
+
+func (p *halfOpenProxy) conns() int {
+	p.mu.Lock()
+	defer p.mu.Unlock()
+	return len(p.cli)
+}
+
+func (p *halfOpenProxy) closeClientSide(i int) {
+	p.mu.Lock()
+	defer p.mu.Unlock()
+	p.cli[i].Close()
+}
+
+func (p *halfOpenProxy) closeServerSide(i int) {
+	p.mu.Lock()
+	defer p.mu.Unlock()
+	p.srv[i].Close()
+}
+
+func (p *halfOpenProxy) closeAll() {
+	p.lis.Close()
+	p.mu.Lock()
+	defer p.mu.Unlock()
+	for i := range p.cli {
+		p.cli[i].Close()
+		p.srv[i].Close()
+	}
+}
+
+// halfOpenProbe: the follower's connection dies on the follower's side first. The follower reconnects and is bound again
+// while the leader's handler of the OLD stream is still blocked in Recv; that handler returns later (the server side
+// of the dead connection goes away). Changes broadcast after that must still reach the follower: whatever the leader
+// does when a handler ends must not take away the stream of the follower's NEW connection.
+func halfOpenProbe(R *res.Result, seed uint64) {
+	r := rng.New(seed ^ 0x51f0be)
+	const I0, first, second, third = 50, 20, 15, 25
+	leader := newNode("leader", u64p(I0), true)
+	follower := newNode("follower", u64p(I0), true)
+	base := genRegions(r, 30, 1, 0)
+	for _, reg := range base {
+		leader.srv.bc.PutRegion(reg.info())
+	}
+	upd := genUpdates(r, base, first+second+third)
+	for i := range upd {
+		if upd[i].Leader == nil {
+			p := upd[i].Peers[0]
+			upd[i].Leader = &p
+		}
+	}
+	newest := map[uint64]Region{}
+	for _, u := range upd {
+		newest[u.ID] = u
+	}
+	wait := func(d time.Duration, cond func() bool) bool {
+		deadline := time.Now().Add(d)
+		for time.Now().Before(deadline) {
+			if cond() {
+				return true
+			}
+			time.Sleep(time.Millisecond)
+		}
+		return false
+	}
+	lis, err := net.Listen("tcp", "127.0.0.1:0")
+	if err != nil {
+		panic(err)
+	}
+	stub := &pdStub{leader: leader.syncer}
+	gs := grpc.NewServer()
+	pdpb.RegisterPDServer(gs, stub)
+	go gs.Serve(lis)
+	px := newHalfOpenProxy(lis.Addr().String())
+	follower.syncer.StartSyncWithLeader("http://" + px.lis.Addr().String())
+	fidx := func() uint64 { return follower.syncer.VerifHistory().GetNextIndex() }
+	ok := wait(8*time.Second, func() bool { return leader.syncer.VerifStreamBound("follower") })
+	ch := make(chan *core.RegionInfo, len(upd)+10)
+	quit := make(chan struct{})
+	go leader.syncer.RunServer(ch, quit)
+	send := func(us []Region) {
+		for _, u := range us {
+			ch <- u.info()
+		}
+	}
+	send(upd[:first])
+	ok = ok && wait(8*time.Second, func() bool { return fidx() == I0+first })
+	// the follower's half of the connection dies; the leader's half stays (nothing tells the leader)
+	ok = ok && px.conns() >= 1
+	if ok {
+		px.closeClientSide(0)
+	}
+	// the follower comes back on a new connection: a second handler runs on the leader while the first is still blocked
+	ok = ok && wait(10*time.Second, func() bool { e, _ := stub.handlers(); return e >= 2 && px.conns() >= 2 })
+	_, retBefore := stub.handlers()
+	send(upd[first : first+second])
+	// these arrive over the new stream: it is bound
+	ok = ok && wait(8*time.Second, func() bool { return fidx() == I0+first+second })
+	// now the leader's half of the old connection goes away and the old handler returns
+	gone := false
+	if ok {
+		px.closeServerSide(0)
+		gone = wait(8*time.Second, func() bool { _, ret := stub.handlers(); return ret > retBefore })
+	}
+	send(upd[first+second:])
+	arrived := wait(6*time.Second, func() bool { return fidx() == uint64(I0+len(upd)) })
+	close(quit)
+	R.Count("probe:half-open")
+	if ok && gone {
+		bad := ""
+		if arrived {
+			for _, ri := range follower.srv.bc.GetRegions() {
+				f := regionOf(ri)
+				if n, has := newest[f.ID]; has && (!eqMeta(n, f) || !eqPeerPtr(n.Leader, f.Leader)) {
+					bad = fmt.Sprintf("region %d: the leader holds conf_ver %d leader %s, the follower conf_ver %d leader %s", f.ID, n.ConfVer, showPeer(n.Leader), f.ConfVer, showPeer(f.Leader))
+					break
+				}
+			}
+		}
+		if !arrived || bad != "" {
+			R.Violate("C16:broadcast:not-delivered-after-reconnect",
+				fmt.Sprintf("the follower's side of its connection died, it reconnected and received %d broadcasts over the new stream; then the leader's handler of the OLD stream returned; the %d changes broadcast after that: follower's next index %d instead of %d (stream bound on the leader: %v); %s",
+					second, third, fidx(), I0+len(upd), leader.syncer.VerifStreamBound("follower"), bad),
+				map[string]interface{}{"probe": "half-open", "start": I0, "before": first, "on_new_stream": second, "after_old_handler_returned": third})
+		}
+	} else {
+		R.Notes = append(R.Notes, fmt.Sprintf("half-open probe could not set up its schedule (ok=%v, old handler returned=%v)", ok, gone))
+	}
+	cleanup.Add(1)
+	go func() {
+		defer cleanup.Done()
+		follower.syncer.StopSyncWithLeader()
+		px.closeAll()
+		gs.Stop()
 		for _, nd := range []*node{leader, follower} {
 			nd.cancel()
 			nd.rs.Close()
@@ -1695,6 +1893,19 @@ func main() {
 					R.Violate(v.Sig, v.Desc, v.Replay)
 				}
 				R.Count("probe:reconnect")
+				rmu.Unlock()
+			}()
+			wg.Add(1)
+			go func() { // one reconnect back-off as well
+				defer wg.Done()
+				Rk := res.New("C16", *seed, *tier)
+				halfOpenProbe(Rk, *seed)
+				rmu.Lock()
+				for _, v := range Rk.Violations {
+					R.Violate(v.Sig, v.Desc, v.Replay)
+				}
+				R.Notes = append(R.Notes, Rk.Notes...)
+				R.Count("probe:half-open")
 				rmu.Unlock()
 			}()
 			for k := 0; k < *ncut; k++ {
